@@ -12,6 +12,9 @@ def vm(profile, qn, tn, extra=None):
 # every module's property is also exercised across an export / import of the state (the export profile runs histories of all base
 # profiles; its findings are attributed to C20 and to the properties of the base profile's modules)
 EXPORT = chain("export", 48, 480, ops=100, tops=200)
+# the real mint.BeginBlocker against Model/Mint.lean on states reached by shield and staking histories (C01, C02, C08)
+MINT = chain("mint", 48, 480, ops=60, tops=120)
+MINT_ASSUME = "the size of the block provision (the SDK minter's inflation and annual provisions) is an input of the mint model; the monitor supply_grows_by_the_provision restates BlockProvision = annual provisions / blocks per year on the observation"
 
 VM_ENGINES = [vm("ops", 16000, 320000), vm("structured", 16000, 320000), vm("raw", 16000, 320000), vm("calls", 16000, 320000), vm("create", 1600, 16000)]
 VM_ASSUME = ["outside the Lean interpreter model (cases reaching them are skipped by the comparison, monitors still run): CREATE/CREATE2, native/precompile addresses (<= 0xff), any use of an address destroyed earlier in the same transaction, call nesting deeper than 8",
@@ -34,7 +37,8 @@ SHIELD = {"engines": [chain("shield", 128, 1280, ops=160, tops=240), EXPORT],
                           "only the bond denomination is used for shield, fees and losses", "genesis LastUpdateTime is the chain's start time (DefaultGenesisState stamps the wall clock)"]}
 
 PROPS = {
-    "C02": dict(SHIELD, lean=["Shentu.Props.C02", "Shentu.Props.C04b", "Shentu.Props.ShieldTie"], engines=SHIELD["engines"] + [chain("payout", 64, 640, ops=120, tops=200)]),
+    "C02": dict(SHIELD, lean=["Shentu.Props.C02", "Shentu.Props.C04b", "Shentu.Props.C01m", "Shentu.Props.ShieldTie"], engines=SHIELD["engines"] + [chain("payout", 64, 640, ops=120, tops=200), MINT],
+                assumptions=SHIELD["assumptions"] + [MINT_ASSUME]),
     "C03": dict(SHIELD, lean=["Shentu.Props.C03a", "Shentu.Props.C03b", "Shentu.Props.ShieldTie"]),
     "C04": dict(SHIELD, lean=["Shentu.Props.C04", "Shentu.Props.C04b", "Shentu.Props.C04c", "Shentu.Props.ShieldTie"],
                 engines=SHIELD["engines"] + [chain("payout", 64, 640, ops=120, tops=200)],
@@ -45,13 +49,14 @@ PROPS = {
         "the converse (a funded purchase meeting the conditions is accepted) is proved for purchases whose fee or stake does not truncate to zero (amount x rate >= 1 unit); with the default minimum purchase of 50 CTK this always holds; below it the module answers ErrNoShield"]),
     "C07": dict(SHIELD, lean=["Shentu.Props.C07", "Shentu.Props.ShieldTie"]),
     "C08": {
-        "lean": ["Shentu.Props.C08", "Shentu.Props.C04b", "Shentu.Props.C04c"],
-        "engines": [chain("shield", 96, 960, ops=240, tops=400), chain("oracle", 48, 480, ops=120), chain("gov", 48, 480, ops=120), chain("staking", 32, 320, ops=150), chain("bankvm", 32, 320, ops=100)],
+        "lean": ["Shentu.Props.C08", "Shentu.Props.C04b", "Shentu.Props.C04c", "Shentu.Props.C01m"],
+        "engines": [chain("shield", 96, 960, ops=240, tops=400), chain("oracle", 48, 480, ops=120), chain("gov", 48, 480, ops=120), chain("staking", 32, 320, ops=150), chain("bankvm", 32, 320, ops=100), MINT],
         "trusted": SDK_TRUST + ["a panic inside BeginBlock/EndBlock of the real application is caught by the harness (recover) and reported with its site; the begin/end-blockers of SDK modules (distribution, mint, slashing, staking) run for real in every history but are not modelled",
                                 "in the models a Go panic is the error value built by `panicE`; the theorems show that the modelled block-level functions return no error on states satisfying invariants that are proved to be preserved by every operation"],
         "assumptions": ["oracle parameters epsilon1, epsilon2 > 0 (a zero epsilon divides by zero for a score of 0 or 100; parameter validation does not exclude it)", "shield protection period > 0 (validated by the module)",
                         "claim payouts, at the staking level: the payout function panics ('exact pay out was not made from unbondings') exactly when the provider's bonded and unbonding stake does not cover purchased + payout, and otherwise succeeds (C04b.makePayout_exact, makePayout_uncovered_panics)", "claim payouts: totality of the payout is proved under a feasibility condition on the provider snapshot that is not an invariant (collateral can leave while a claim is open when blocks are far apart); since the repair a47d31f a payout that panics fails the proposal instead of halting the chain, which is what the histories exercise",
-                        "block-time gaps up to ten protection periods, parameters as drawn by the profile generators"],
+                        "block-time gaps up to ten protection periods, parameters as drawn by the profile generators",
+                        "mint: the split of the block provision cannot fail when the two ratios (community pool / supply, stake-for-shield pool / supply) are non-negative and add up to at most one (C01m.split_ok_of_ratios, and split_panics_iff for the converse); both pools are coins held inside the supply, in different module accounts"],
     },
     "C09": {
         "lean": ["Shentu.Props.C09"],
@@ -91,10 +96,10 @@ PROPS = {
         "trusted": VM_TRUST,
         "assumptions": VM_ASSUME,
     },
-    "C01": dict(BANKVM, lean=["Shentu.Props.C01", "Shentu.Props.C01s", "Shentu.Props.C01vm", "Shentu.Props.C01run"], drivers=["chaindriver", "vmdriver"],
+    "C01": dict(BANKVM, lean=["Shentu.Props.C01", "Shentu.Props.C01s", "Shentu.Props.C01vm", "Shentu.Props.C01run", "Shentu.Props.C01m"], drivers=["chaindriver", "vmdriver"],
                 engines=[chain("bankvm", 96, 960, ops=100), chain("gov", 48, 480, ops=100), chain("oracle", 48, 480), chain("shield", 32, 320, ops=120), chain("staking", 32, 320, ops=100),
-                         vm("calls", 16000, 160000), EXPORT],
-                assumptions=BANKVM["assumptions"] + ["arbitrary contract programs (value calls, SELFDESTRUCT to any beneficiary, failing frames) are covered by the VM engine: the accounts of the interpreter's cache hold the same sum before and after every generated call tree; the write-back of that cache to the bank is covered by the chain engine's library programs"]),
+                         vm("calls", 16000, 160000), EXPORT, MINT],
+                assumptions=BANKVM["assumptions"] + [MINT_ASSUME, "arbitrary contract programs (value calls, SELFDESTRUCT to any beneficiary, failing frames) are covered by the VM engine: the accounts of the interpreter's cache hold the same sum before and after every generated call tree; the write-back of that cache to the bank is covered by the chain engine's library programs"]),
     "C18": dict(BANKVM, lean=["Shentu.Props.C18", "Shentu.Props.C18vm"], drivers=["chaindriver", "vmdriver"],
                 engines=[chain("bankvm", 160, 1600, ops=100), vm("calls", 16000, 320000), vm("create", 1600, 16000), EXPORT]),
     "C19": dict(BANKVM, lean=["Shentu.Props.C19"], engines=[chain("bankvm", 160, 1600, ops=100), chain("payout", 48, 480, ops=120, tops=200), EXPORT],
